@@ -1,9 +1,180 @@
+import SwayVerif.Model.FsLock
 import SwayVerif.Driver.Util
-/-! Driver for C25 (stub — replace `answer`; keep `run`). -/
-namespace SwayVerif.Driver.C25
-open SwayVerif.Driver
+/-!
+Driver for C25. Case line (written by `harness/src/bin/sv_c25.rs`):
 
-def answer (_line : String) : String := "unimplemented agree=0 prop=0"
+`sched iso=<0|1> np=<n> <tok>… ;; <obs>… [bad=<kind>:<q>:<w>…]`
+
+tokens `init:<hex>` `initp:<i>` `s<i>:<op>` `<i>` `k<i>`; one observation `<file>|<dir>|<event>` per token
+(file = `A` or hex bytes with real pids mapped to model pids 101+i). The driver replays the schedule on
+the model (`Variant.fixed`): `agree` = identical observations, identical `iso` tag, identical `bad` tags.
+`prop` is evaluated on the IMPLEMENTATION's observations only:
+* while child w holds (its `lock`/`mark` returned ok, it has not started `lock`/`release`/`mark` since) and
+  is alive, the flag file contains w's pid after every step, every `islocked`/`dirty` completed by another
+  child returns `t` and every `glp` returns `some:<w>`;
+* an `islocked`/`dirty` returning `t` needs a live other child whose pid has been in the flag file.
+-/
+namespace SwayVerif.Driver.C25
+open SwayVerif.Driver SwayVerif.FsLock
+
+def basePid : Nat := 101
+
+inductive Tok
+  | init (b : Bytes) | start (i : Nat) (op : String) | step (i : Nat) | kill (i : Nat)
+
+def parseOp : String → Option Op
+  | "lock" => some .lock | "release" => some .release | "islocked" => some .isLocked
+  | "glp" => some .getLockerPid | "cleanup" => some .cleanup | "dirty" => some .isFileDirty
+  | "mark" => some .markDirty | _ => none
+
+def parseTok (t : String) : Option Tok :=
+  if t.startsWith "init:" then (hexBytes? (t.drop 5).toString).map .init
+  else if t.startsWith "initp:" then (t.drop 6).toString.toNat?.map fun i => .init (toDec (basePid + i))
+  else if t.startsWith "s" then
+    match (t.drop 1).toString.splitOn ":" with
+    | [i, op] => i.toNat?.bind fun i => (parseOp op).map fun _ => .start i op
+    | _ => none
+  else if t.startsWith "k" then (t.drop 1).toString.toNat?.map .kill
+  else t.toNat?.map .step
+
+def showRet : Ret → String
+  | .ok => "ok" | .err => "err"
+  | .bool true => "t" | .bool false => "f"
+  | .pid none => "none" | .pid (some p) => s!"some:{p}"
+  | .cleaned n => s!"ok:{n}"
+
+def showFile (s : State) : String := match s.file with
+  | none => "A"
+  | some h => showHexBytes (s.content h)
+
+def obsOf (s : State) (ev : String) : String := s!"{showFile s}|{b01 s.dir}|{ev}"
+
+/-- model replay: observations, iso, bad tags; `none` when the model cannot take a token -/
+structure MRun where
+  s : State
+  obs : List String := []
+  iso : Bool := true
+  bad : List String := []
+  stuck : Bool := false
+
+def livePids (np : Nat) : List Nat := (List.range np).map (basePid + ·)
+
+def mStep (np : Nat) (m : MRun) (t : Tok) : MRun :=
+  if m.stuck then m else
+  match t with
+  | .init b =>
+    let s := { m.s with dir := true, file := some m.s.data.length, data := m.s.data ++ [b] }
+    { m with s := s, obs := m.obs ++ [obsOf s "init"] }
+  | .start i op =>
+    match (parseOp op).bind fun o => exec .fixed m.s (.start (basePid + i) o) with
+    | some (s, _) => { m with s := s, obs := m.obs ++ [obsOf s s!"at:{(s.pc (basePid + i)).name}"] }
+    | none => { m with stuck := true }
+  | .kill i =>
+    match exec .fixed m.s (.crash (basePid + i)) with
+    | some (s, _) => { m with s := s, obs := m.obs ++ [obsOf s "killed"] }
+    | none => { m with stuck := true }
+  | .step i =>
+    let p := basePid + i
+    let isoOk := !(m.s.pc p).isPublish ||
+      (livePids np).all fun q => q == p || !m.s.alive q || decide (m.s.pc q = .idle)
+    match exec .fixed m.s (.step p) with
+    | some (s, r) =>
+      let ev := match r with
+        | some r => s!"ret:{showRet r}"
+        | none => s!"at:{(s.pc p).name}"
+      let before := showFile m.s
+      let after := showFile s
+      let bad := if before == after then [] else
+        (List.range np).filterMap fun w =>
+          if w != i && m.s.alive (basePid + w) && before == showHexBytes (toDec (basePid + w)) then
+            some s!"bad={if after == "A" then "unlink-live" else "overwrite-live"}:{i}:{w}"
+          else none
+      { m with s := s, obs := m.obs ++ [obsOf s ev], iso := m.iso && isoOk, bad := m.bad ++ bad }
+    | none => { m with stuck := true }
+
+/-- property evaluation on the implementation's observations -/
+structure PRun where
+  holds : List Bool
+  alive : List Bool
+  cur : List String          -- running operation per child ("" = idle)
+  seen : List String := []   -- hex file contents seen so far
+  viol : String := "none"
+  held : Bool := false
+  crashes : Nat := 0
+
+def setAt {α : Type} (l : List α) (i : Nat) (v : α) : List α := l.set i v
+
+def flagHex (w : Nat) : String := showHexBytes (toDec (basePid + w))
+
+def pStep (np : Nat) (pr : PRun) (t : Tok) (ob : String) : PRun :=
+  let parts := ob.splitOn "|"
+  let file := parts.getD 0 "?"
+  let ev := parts.getD 2 "?"
+  let holders := (List.range np).filter fun w => pr.holds.getD w false && pr.alive.getD w false
+  let pr1 : PRun := match t with
+    | .init _ => pr
+    | .start i op =>
+      let pr := { pr with cur := setAt pr.cur i op }
+      if op == "lock" || op == "release" || op == "mark" then { pr with holds := setAt pr.holds i false } else pr
+    | .kill i => { pr with alive := setAt pr.alive i false, cur := setAt pr.cur i "", crashes := pr.crashes + 1 }
+    | .step i =>
+      if ev.startsWith "ret:" then
+        let r := (ev.drop 4).toString
+        let op := pr.cur.getD i ""
+        let pr := { pr with cur := setAt pr.cur i "" }
+        let others := holders.filter (· != i)
+        let pr := if (op == "lock" || op == "mark") && r == "ok" then { pr with holds := setAt pr.holds i true, held := true } else pr
+        if op == "islocked" || op == "dirty" then
+          if r == "f" && !others.isEmpty then { pr with viol := "observer-clean" }
+          else if r == "t" && !((List.range np).any fun j => j != i && pr.alive.getD j false && pr.seen.contains (flagHex j))
+            then { pr with viol := "stale-dirty" }
+          else pr
+        else if op == "glp" then
+          if others.any fun w => r != s!"some:{basePid + w}" then { pr with viol := "glp-wrong" } else pr
+        else pr
+      else pr
+  let pr2 := { pr1 with seen := if pr1.seen.contains file then pr1.seen else file :: pr1.seen }
+  -- after the token: every live holder's flag is on disk
+  let holders2 := (List.range np).filter fun w => pr2.holds.getD w false && pr2.alive.getD w false
+  if pr2.viol == "none" && holders2.any (fun w => file != flagHex w) then { pr2 with viol := "file-lost" } else pr2
+
+def zipFold (np : Nat) : PRun → List Tok → List String → PRun
+  | pr, t :: ts, o :: os =>
+    let pr' := pStep np pr t o
+    -- keep the FIRST violation
+    let pr' := if pr.viol != "none" then { pr' with viol := pr.viol } else pr'
+    zipFold np pr' ts os
+  | pr, _, _ => pr
+
+def kvOf (ts : List String) (k : String) : Option String :=
+  (ts.find? (·.startsWith (k ++ "="))).map fun t => (t.drop (k.length + 1)).toString
+
+def answer (line : String) : String :=
+  let (c, i) := splitCase line
+  match c with
+  | "sched" :: rest =>
+    let np := ((kvOf rest "np").bind (·.toNat?)).getD 0
+    let isoTag := (kvOf rest "iso").getD "?"
+    let tokStrs := rest.filter fun t => !(t.startsWith "np=" || t.startsWith "iso=")
+    match tokStrs.mapM parseTok with
+    | none => "bad-token agree=0 prop=0"
+    | some toks =>
+      if np == 0 || np > 8 then "bad-np agree=0 prop=0" else
+      let implObs := i.filter fun t => !t.startsWith "bad="
+      let implBad := i.filter fun t => t.startsWith "bad="
+      let alive : Pid → Bool := fun p => decide (basePid ≤ p) && decide (p < basePid + np)
+      let m := toks.foldl (mStep np) { s := emptyState alive }
+      let pr := zipFold np { holds := List.replicate np false, alive := List.replicate np true,
+                             cur := List.replicate np "" } toks implObs
+      let sameObs := !m.stuck && m.obs == implObs
+      let agree := sameObs && b01 m.iso == isoTag && m.bad == implBad && implObs.length == toks.length
+      let diff := ((m.obs.zip implObs).findIdx? fun (a, b) => a != b).getD (min m.obs.length implObs.length)
+      let prop := pr.viol == "none"
+      let lenc := if toks.length < 10 then "s" else if toks.length < 25 then "m" else "l"
+      let extra := if agree then "" else
+        s!" diff={diff} mobs={m.obs.getD diff "-"} miso={b01 m.iso} mbad={m.bad.length} stuck={b01 m.stuck}"
+      s!"n={toks.length} agree={b01 agree} prop={b01 prop} iso={isoTag} np={np} viol={pr.viol} held={b01 pr.held} crashes={min pr.crashes 2} len={lenc} badev={min implBad.length 2}{extra}"
+  | _ => "bad-op agree=0 prop=0"
 
 def run : IO Unit := do
   lineLoop (← IO.getStdin) (← IO.getStdout) answer
